@@ -140,6 +140,22 @@ fn grammar_cases() -> Vec<String> {
     ] {
         defs.push(t.to_string());
     }
+    // every stack instruction meeting a stack of 0..3 elements, in either direction: `push.. | ins` reaches it
+    // forward, `ins | pop..` reaches it inverse (the worker applies every definition both ways)
+    for ins in ["stack swap", "stack drop", "stack flip=1", "stack flip=1,2", "stack roll=2,1", "stack unroll=2,1", "stack roll=3,-1", "stack unroll=3,-2", "stack pop=1", "stack pop=1,2", "stack push=1", "pop v_1", "pop v_1 v_2", "push v_1"] {
+        for depth in 0..4usize {
+            let idx: Vec<String> = (1..=depth).map(|i| i.to_string()).collect();
+            for inv in ["", " inv"] {
+                if depth == 0 {
+                    defs.push(format!("{ins}{inv} | addone"));
+                    defs.push(format!("addone | {ins}{inv}"));
+                } else {
+                    defs.push(format!("stack push={} | {ins}{inv}", idx.join(",")));
+                    defs.push(format!("{ins}{inv} | stack pop={}", idx.join(",")));
+                }
+            }
+        }
+    }
     defs.sort();
     defs.dedup();
     let mut cases = Vec::new();
